@@ -32,6 +32,12 @@ CLAIMED = {
  "C10": dict(level="exploration", engine="E1-world+E2-faults", technique="stateful PBT + fault-position enumeration with buffer-retaining spies (AEAD, KMS, SecretFactory, fake regional AWS KMS); oracle: retained key buffers are all zero after the call",
    text="Every slice handed out by the AEAD/KMS spies or passed to the secret factory that held key material must be zero when the public call returns, over generated histories with the real memguard/protectedmemory factories, under every injected fault position, and for both AWS KMS plugins with per-region failures.",
    note="only buffers that cross the AEAD/KMS/SecretFactory interfaces are visible", ref="3/C10"),
+ "C11": dict(level="exploration", engine="smaps+E3-delay", technique="PBT over operation programs with the kernel's page state (/proc/self/smaps) as oracle, plus preemption-bounded schedule sampling (delay plans over injected yield points) for readers vs. closers",
+   text="Real mmap/mlock/mprotect: page permissions and VmFlags are read from /proc/self/smaps inside every callback, between accesses and after Close for generated programs over sizes up to 3 pages; concurrent readers and closers run under drawn delay plans with fault-to-panic conversion, an active-callback counter and a deadlock watchdog.",
+   note="Linux only; schedules are sampled, not enumerated", ref="3/C11"),
+ "C12": dict(level="fault_enumeration", engine="shadow-memcall", technique="exhaustive single and pair fault enumeration over the memory-primitive call sequence, with a shadow page table as oracle",
+   text="An interposed memcall implementation with a shadow page table fails every primitive index and every pair of indices of creation/read/close programs for protectedmemory (all primitives + random source) and memguard (Protect): errors surfaced, nothing left mapped/locked, wipe-before-unlock/free, reader count and Close retry, counter balance, no hang.",
+   note="memguard allocation failures cannot be injected; shadow table stands in for kernel state (real state is C11)", ref="3/C12"),
  "C13": dict(level="exploration", engine="metastore-model", technique="model-based stateful PBT against a reference key table, over semantic fakes of database/sql and DynamoDB (v1+v2 adapters)",
    text="Random Store/Load/LoadLatest sequences over overlapping ids and timestamps on the memory, SQL (3 dialects) and both DynamoDB metastores; the fakes interpret the SQL / expressions, enforce the documented schema and serve plain reads eventually consistently, so ordering, uniqueness, consistency flags and field fidelity are checked as behaviour.",
    note="trusted base: the fakes' reading of SQL / DynamoDB semantics; no real database", ref="3/C13"),
